@@ -540,8 +540,9 @@ def rules(repo, tier):
     from ..optional import rule_optional
     from ..mode import mode_rules
     from ..callsig import rule_callsig
+    from ..docsig import rule_docsig
     from ..axisdefault import rule_axisdefault
     from ..stale import rule_stale
     return [rule_ki(repo, tier), rule_role(repo, tier), rule_sb(repo, tier), rule_clone_alias(repo, tier), rule_deleg(repo, tier), rule_ext(repo, tier), rule_inplace(repo, tier), rule_negdim(repo, tier), rule_memo12(repo, tier),
-            rule_stale(repo, 'C12.STALE', [(OPS, 'cumops_')]), rule_optional(repo, 'C12.OPT', [OPS])] + mode_rules(repo, 'C12', [OPS]) + [rule_callsig(repo, 'C12.SIG', [OPS])] + [
+            rule_stale(repo, 'C12.STALE', [(OPS, 'cumops_')]), rule_optional(repo, 'C12.OPT', [OPS])] + mode_rules(repo, 'C12', [OPS]) + [rule_callsig(repo, 'C12.SIG', [OPS]), rule_docsig(repo, 'C12.DOC', [OPS])] + [
             rule_axisdefault(repo, 'C12.AXDEF', [OPS])]
